@@ -28,6 +28,9 @@ pub struct HostSpec {
     /// host software returns Ok(()) after its ops instead of running forever (clients always finish)
     #[serde(default)]
     pub finishes: bool,
+    /// ... and returns Err instead of Ok: `step` reports the error, the controller keeps stepping
+    #[serde(default)]
+    pub ends_err: bool,
 }
 
 #[derive(Clone, Debug, Serialize, Deserialize)]
@@ -46,6 +49,8 @@ pub struct Scenario {
 }
 
 pub struct C05;
+
+const ERR_MARK: &str = "c05: software ends with an error";
 
 #[derive(Clone, Debug)]
 struct ObsRec {
@@ -122,6 +127,9 @@ async fn host_main(sh: Shared, host: usize, inc: u32, spec: HostSpec) -> turmoil
         // host software that never finishes
         std::future::pending::<()>().await;
     }
+    if spec.ends_err {
+        return Err(ERR_MARK.into());
+    }
     Ok(())
 }
 
@@ -181,6 +189,16 @@ impl Property for C05 {
         }
         let tick_ms = (cfg.tick_us / 1000).max(1);
         let steps = rng.range(5, 60) as u32;
+        // an epoch that is not a whole number of milliseconds (whole microseconds: the log is in us)
+        if rng.chance(1, 2) {
+            cfg.epoch_sub_us = rng.range(1, 999_999) as u32;
+        }
+        // one scenario in six: the simulation duration is exceeded during the run (step then reports
+        // an error while a client is unfinished) and the controller keeps calling step
+        if rng.chance(1, 6) {
+            cfg.duration_ms = rng.range(1, (steps as u64 * cfg.tick_us / 1000).max(2));
+        }
+        let erring = rng.chance(1, 6);
         let nh = rng.usize(1, 4);
         let mut hosts = Vec::new();
         for _ in 0..nh {
@@ -190,7 +208,13 @@ impl Property for C05 {
                 register_before_step: if rng.chance(2, 3) { 1 } else { rng.range(2, steps as u64 / 2 + 2) as u32 },
                 tasks: (0..nt).map(|_| gen_ops(rng, tick_ms)).collect(),
                 finishes: rng.chance(1, 3),
+                ends_err: false,
             });
+            if erring && rng.chance(1, 2) {
+                let h = hosts.last_mut().unwrap();
+                h.ends_err = true;
+                h.finishes = true;
+            }
         }
         let mut script = Vec::new();
         let host_idx: Vec<usize> = hosts.iter().enumerate().filter(|(_, h)| !h.client).map(|(i, _)| i).collect();
@@ -216,7 +240,8 @@ impl Property for C05 {
     fn run(sc: &Scenario, keep: bool) -> Report {
         let sh = Shared { obs: Rc::new(RefCell::new(Vec::new())), step: Rc::new(Cell::new(0)), log: SharedLog::new(keep) };
         let tick = sc.cfg.tick_us;
-        let epoch = sc.cfg.epoch_s * 1_000_000;
+        let epoch = sc.cfg.epoch_s * 1_000_000 + sc.cfg.epoch_sub_us as u64;
+        let mut step_errors = [0u64; 2];
         let mut violation: Option<Violation>;
         let mut reg_at: Vec<Option<u64>> = vec![None; sc.hosts.len()];
         let mut crashes = 0u64;
@@ -277,7 +302,16 @@ impl Property for C05 {
                 let r = sim.step();
                 sh.step.set(0);
                 if let Err(e) = r {
-                    return Some(Violation::new("StepError", format!("step {s} returned an error: {e}")));
+                    // errors the scenario asked for; every call to step still advances all the clocks
+                    let msg = e.to_string();
+                    if msg.starts_with("Ran for duration") && s as u64 * tick > sc.cfg.duration_ms * 1000 {
+                        step_errors[0] += 1;
+                    } else if msg.contains(ERR_MARK) && sc.hosts.iter().any(|h| h.ends_err) {
+                        step_errors[1] += 1;
+                    } else {
+                        return Some(Violation::new("StepError", format!("step {s} returned an error: {e}")));
+                    }
+                    sh.log.ev(format!("ctl step {s} returned Err({msg})"));
                 }
                 let el = us(sim.elapsed());
                 let ep = us(sim.since_epoch());
@@ -414,6 +448,11 @@ impl Property for C05 {
         if sc.cfg.tick_us % 1000 != 0 {
             rep.probes.inc("fractional_ms_tick");
         }
+        if sc.cfg.epoch_sub_us % 1000 != 0 {
+            rep.probes.inc("epoch_not_whole_ms");
+        }
+        rep.probes.add("step_reported_duration_exceeded_and_run_went_on", step_errors[0]);
+        rep.probes.add("step_reported_software_error_and_run_went_on", step_errors[1]);
         if sc.hosts.iter().enumerate().any(|(i, h)| h.finishes && !h.client && obs.iter().any(|o| o.host == i && o.inc > 1)) {
             rep.probes.inc("finished_host_bounced_and_observed");
         }
